@@ -57,8 +57,11 @@ struct MyCluster : ClusterBase {
   ClusterBase* clone(const GNU_gama::ObservationData<Obs>*) const override { return nullptr; }
 };
 
-// update(); flip the flag of observation t; activeCov()
-static int api_stale(const std::vector<int>& dims, const std::vector<bool>& flags, int t, bool verbose)
+// REGRESSION for the defect repaired in /repo e3f0492 (activeCov() used the cached act_dim for `new int[act_dim+1]`):
+// update(); flip the flag of observation t (public set_active()/set_passive()) WITHOUT update(); activeCov().
+// Expected on the repaired tree: no heap overrun, result dimension == live sum of active dimensions, and the diagonal
+// of the result == the diagonal entries of the full matrix at the positions of the currently active components.
+static int api_sequence(const std::vector<int>& dims, const std::vector<bool>& flags, int t, bool verbose)
 {
   MyCluster c;
   int total = 0;
@@ -72,24 +75,25 @@ static int api_stale(const std::vector<int>& dims, const std::vector<bool>& flag
   c.covariance_matrix.reset(total, 0);
   for (int r = 1; r <= total; r++) c.covariance_matrix(r, r) = r;
   c.update();
-  int u = 0, now = 0;
+  int u = 0, now = 0, pos = 1;
+  std::vector<int> expect;                     // positions of the active components after the flip
   for (Obs* o : c.observation_list) {
-    if (u++ == t) o->act = !o->act;          // Observation::set_passive() / set_active()
+    if (u++ == t) o->act = !o->act;
+    for (int d = 0; d < o->dim; d++, pos++) if (o->act) { expect.push_back(pos); }
     if (o->act) now += o->dim;
   }
-  const bool stale = c.activeDim() != now;
+  const int cached = c.activeDim();
   int before = g_overruns;
-  bool overrun = false;
-  if (c.activeDim() < now) {                  // the dangerous direction: ind[] is too short for the live list
-    GNU_gama::CovMat<> C = c.activeCov();
-    overrun = g_overruns != before;
-  }
-  if (verbose)
-    std::printf("n=%zu, flip observation %d after update(): activeDim() = %d, sum of active dimensions = %d%s\n",
-                dims.size(), t, c.activeDim(), now,
-                overrun ? "; activeCov() wrote beyond its block new int[act_dim+1] (guard word overwritten): HEAP OVERRUN"
-                        : (stale ? "; activeCov() would read ind[] entries that were never written" : ""));
-  return stale ? 1 : 0;
+  GNU_gama::CovMat<> C = c.activeCov();
+  const GNU_gama::CovMat<>& CC = C;
+  bool overrun = g_overruns != before;
+  bool bad = overrun || C.dim() != now;
+  for (int k = 1; !bad && k <= now; k++) if (CC(k, k) != expect[k - 1]) bad = true;
+  if (verbose || bad)
+    std::printf("n=%zu, flip observation %d after update(): cached activeDim() = %d, live sum of active dimensions = %d, activeCov().dim() = %d%s: %s\n",
+                dims.size(), t, cached, now, (int)C.dim(), overrun ? ", guard word behind new int[] overwritten (HEAP OVERRUN)" : "",
+                bad ? "NOT the sub-matrix of the current active set" : "ok");
+  return bad ? 1 : 0;
 }
 
 int main(int argc, char** argv)
@@ -97,17 +101,16 @@ int main(int argc, char** argv)
   if (argc < 3) return 2;
   GvInputs in(argv[1]);
   std::string check = argv[2];
-  if (check == "api_stale") {
+  if (check.compare(0, 9, "activeCov") == 0 || check == "api_stale") {
     long n = in.integer("w_n", 3), t = in.integer("w_t", 0);
     if (n < 1) n = 1;
     if (n > 6) n = 6;
     if (t < 0 || t >= n) t = 0;
     int rc = 0;
-    // the counterexample's shape (length, flipped observation), all passive -> one becomes active, then a small sweep
     {
       std::vector<int> dims(n, 1);
       std::vector<bool> flags(n, false);
-      rc |= api_stale(dims, flags, (int)t, true);
+      rc |= api_sequence(dims, flags, (int)t, true);
     }
     int swept = 0, hits = 0;
     for (int len = 1; len <= 3; len++)
@@ -117,12 +120,12 @@ int main(int argc, char** argv)
             std::vector<int> dims(len, d);
             std::vector<bool> flags(len, f != 0);
             swept++;
-            if (api_stale(dims, flags, k, false)) { hits++; rc = 1; }
+            if (api_sequence(dims, flags, k, false)) { hits++; rc = 1; }
           }
-    std::printf("sweep (1..3 observations, dimension 1 or 3, all active / all passive, each flipped): %d of %d sequences leave act_dim stale, %d heap overruns detected\n",
+    std::printf("sweep update(); flip; activeCov() (1..3 observations, dimension 1 or 3, all active / all passive, each flipped): %d of %d sequences wrong, %d heap overruns\n",
                 hits, swept, g_overruns);
-    std::printf(rc ? "activeCov() precondition (act_dim current) broken by a public API sequence: POSTCONDITION VIOLATED\n"
-                   : "no stale act_dim reachable\n");
+    std::printf(rc ? "activeCov() does not return the sub-matrix of the current active set: POSTCONDITION VIOLATED\n"
+                   : "activeCov() after flag changes without update(): ok\n");
     return rc;
   }
   std::printf("no native replay for check %s\n", check.c_str());
